@@ -243,7 +243,26 @@ def main(chk):
     for t in range(ntr):
         is_perf = t % 4 == 3
         is_arr = t % 6 == 5
-        if is_arr:
+        is_match = t % 9 == 7
+        if is_match:
+            # (alignment, performed part, score part) written as a match file, with and without unfolding by the alignment
+            from .c08 import make_triple
+            from partitura.io.exportmatch import save_match
+            part_m, _, notes_m, al_m, _, ppq_m, mpq_m, _ = make_triple(score, rng)
+            pp_m = P.PerformedPart([{a: b for a, b in n.items() if not a.startswith("_")} for n in notes_m], id="pp", ppq=ppq_m, mpq=mpq_m)
+            arg = (al_m, pp_m, part_m)
+            tmpf = os.path.join(tlc.workdir("c20/match"), "t.match")
+
+            def save(unfolded):
+                save_match(al_m, pp_m, part_m, out=tmpf, mpq=mpq_m, ppq=ppq_m, assume_unfolded=unfolded)
+                return open(tmpf).read()
+            obs = {"save_match": lambda a: save(False), "save_match_assume_unfolded": lambda a: save(True)}
+            fpf = lambda: proj.digest([proj.project_part(part_m), proj.project_performance(pp_m), al_m])
+            fp_nosg = lambda: proj.digest([proj.project_part(part_m, exclude=("Segment",)), proj.project_performance(pp_m), al_m])
+            inplace = {}
+            is_perf = False
+            is_arr = False
+        elif is_arr:
             sc0 = gen_score.make_score(score, rng, n_parts=1)
             arg = sc0.note_array() if rng.random() < 0.5 else make_perf(P, rng).note_array()
             obs = array_observers(M)
@@ -291,7 +310,7 @@ def main(chk):
                 ev["only_segments"] = 1 if (after != before and ns_after == ns_before) else 0
             events.append(ev)
         traces.append({"tid": t + 1, "fp0": fp0, "events": events,
-                       "kind": "note_array" if is_arr else ("performance" if is_perf else "score")})
+                       "kind": "match_triple" if is_match else "note_array" if is_arr else ("performance" if is_perf else "score")})
     wd = tlc.workdir("c20/obs")
     path = os.path.join(wd, "batch.json")
     with open(path, "w") as f:
